@@ -23,8 +23,8 @@ using sim::Rng;
 
 namespace {
 
-enum WorkloadKind { kWAsm = 0, kWBuilder, kWCompiler, kWJit, kWChoreography, kWorkloadCount };
-const char* const kWorkloadNames[kWorkloadCount] = {"assembler", "builder", "compiler", "jit-install", "attach-choreography"};
+enum WorkloadKind { kWAsm = 0, kWBuilder, kWCompiler, kWJit, kWChoreography, kWContainers, kWorkloadCount };
+const char* const kWorkloadNames[kWorkloadCount] = {"assembler", "builder", "compiler", "jit-install", "attach-choreography", "containers"};
 
 enum OpKind : uint16_t { kWorkload, kOpCount };
 const char* op_name(uint16_t) { return "workload"; }
@@ -37,6 +37,7 @@ struct Spec {
   uint32_t nfuncs;
   bool logger, validate;
   bool static_arena;
+  int prehistory;         // 0 fresh objects; 1 / 2: the objects were used before and recycled with reset(kSoft)+init / reinit()
   uint32_t jit_options;   // jit-install: bit 0 dual mapping, 1 multiple pools, 2 fill unused, 3 immediate release, 4 small blocks
 };
 
@@ -61,6 +62,7 @@ Spec spec_from(const Plan& p) {
   s.validate = p.get("validate", 0) != 0;
   s.static_arena = p.get("static", 0) != 0;
   s.jit_options = uint32_t(p.get("jit_options", 0));
+  s.prehistory = int(p.get("prehistory", 0));
   if (s.kind == kWJit) s.target = gen::Target::kX64;
   return s;
 }
@@ -75,6 +77,12 @@ struct Env {
   gen::RecordingHandler eh;
   std::unique_ptr<JitRuntime> rt;
   std::vector<void*> installed;
+  // containers workload: one arena shared by two vectors, a constant pool and raw requests; a heap string
+  std::unique_ptr<Arena> arena;
+  ArenaVector<uint64_t> vec64; ArenaVector<uint32_t> vec32;
+  std::unique_ptr<ConstPool> pool;
+  String str;
+  bool arena_used = false;
 
   explicit Env(const Spec& s) {
     if (s.static_arena) { static_buf.reset(new uint8_t[4096]); code.reset(new CodeHolder(Span<uint8_t>(static_buf.get(), 4096))); }
@@ -83,7 +91,9 @@ struct Env {
     aa.reset(new a64::Assembler()); ab.reset(new a64::Builder()); ac.reset(new a64::Compiler());
     logger.reset(new StringLogger());
     if (s.kind == kWJit) rt = make_runtime(s);
+    if (s.kind == kWContainers) arena.reset(new Arena(1024));
   }
+  ~Env() { vec64.reset(); vec32.reset(); pool.reset(); }
   BaseEmitter& emitter(gen::Target t, int which) {
     if (t == gen::Target::kA64) return which == 0 ? static_cast<BaseEmitter&>(*aa) : which == 1 ? static_cast<BaseEmitter&>(*ab) : static_cast<BaseEmitter&>(*ac);
     return which == 0 ? static_cast<BaseEmitter&>(*xa) : which == 1 ? static_cast<BaseEmitter&>(*xb) : static_cast<BaseEmitter&>(*xc);
@@ -120,7 +130,21 @@ Outcome run_workload(const Spec& s, Env& env, int phase, bool retry_failed_call 
   auto faults_fired_here = [&]() { return sim::run_faults_fired_total() > fired_at_start; };
   env.eh.reset();
   (void)env.logger->content().clear();
-  if (phase == 0) {
+  if (phase == 0 && s.prehistory && s.kind != kWChoreography) {
+    // The objects have a past: another program was assembled on them and they were recycled, so the arena starts with
+    // retained blocks, reusable slots and a current block that is partly used. (Part of the workload: swept like the rest.)
+    STEP(code.init(Environment(gen::arch_of(s.target))));
+    BaseEmitter& pe = env.emitter(s.target, 0);
+    STEP(code.attach(&pe));
+    Rng pr(sim::mix64(s.seed ^ 0x70AD));
+    gen::GenOptions po; po.steps = 60 + size_t(s.seed % 120);
+    gen::Program pp = gen::generate_program(pr, s.target, po);
+    gen::ApplyCtx pctx;
+    for (size_t i = 0; i < pp.steps.size(); i++) { Error err = gen::apply_step(pe, code, pp, i, pctx); if (err == Error::kOutOfMemory || (err != Error::kOk && faults_fired_here())) { out.first_error = err; return out; } env.eh.reset(); }
+    if (s.prehistory == 1) code.reset(ResetPolicy::kSoft); else STEP(code.reinit());
+    sim::count("c15.probe.workload_on_recycled_objects");
+  }
+  if (phase == 0 && !code.is_initialized()) {
     STEP(code.init(Environment(gen::arch_of(s.target))));
   }
   code.set_error_handler(&env.eh);
@@ -225,6 +249,48 @@ Outcome run_workload(const Spec& s, Env& env, int phase, bool retry_failed_call 
         SIM_CHECK(memcmp(reinterpret_cast<void*>(fn), img.data(), size) == 0, "c15:installed-image-differs", "bytes installed by JitRuntime::add differ from the relocated image");
         out.exec_result = fn(0x1234, 0x77) ^ (fn(3, 2) << 1);
         char b[64]; snprintf(b, sizeof b, "exec=%llx\n", (unsigned long long)out.exec_result); out.output += b;
+      }
+      out.completed = true;
+      return out;
+    }
+    case kWContainers: {
+      // Rounds of growing size on ONE arena with a soft or hard reset in between: raw one-shot and reusable requests of
+      // up to several blocks, two vectors, a constant pool and a heap string. The output holds contents, never addresses.
+      Arena& arena = *env.arena;
+      Rng r(sim::mix64(s.seed));
+      uint32_t rounds = 2 + uint32_t(r.below(3));
+      for (uint32_t round = 0; round < rounds; round++) {
+        env.vec64.reset(); env.vec32.reset(); env.pool.reset();
+        if (round) arena.reset(r.chance(3, 4) ? ResetPolicy::kSoft : ResetPolicy::kHard);
+        else if (env.arena_used) arena.reset(ResetPolicy::kSoft);   // redo after a failure: the arena is reset and reused
+        env.arena_used = true;
+        env.pool.reset(new ConstPool(arena));
+        (void)env.str.clear();
+        uint64_t sum = 0;
+        size_t nops = (8 + s.steps / 2) << round;
+        struct Reusable { void* p; size_t size; };
+        std::vector<Reusable> held;
+        for (size_t i = 0; i < nops; i++) {
+          Error err = Error::kOk;
+          switch (r.below(7)) {
+            case 0: { size_t n = Arena::aligned_size(size_t(8 + r.below(size_t(200) << (2 * round)))); uint8_t* p = arena.alloc_oneshot<uint8_t>(n); if (!p) err = make_error(Error::kOutOfMemory); else { memset(p, int(i), n); sum += n; } break; }
+            case 1: { uint64_t v = r.next(); err = env.vec64.append(arena, v); if (err == Error::kOk) sum ^= v; break; }
+            case 2: { size_t n = size_t(1 + r.below(size_t(40) << round)); err = env.vec32.reserve_additional(arena, n); for (size_t k = 0; k < n && err == Error::kOk; k++) err = env.vec32.append(arena, uint32_t(i + k)); break; }
+            case 3: { size_t n = size_t(16 + r.below(500)), got = 0; void* p = arena.alloc_reusable<uint8_t>(n, Out(got)); if (!p) err = make_error(Error::kOutOfMemory); else { memset(p, 0x5A, got); held.push_back(Reusable{p, got}); } break; }
+            case 4: { if (held.empty()) break; size_t k = size_t(r.below(held.size())); arena.free_reusable(held[k].p, held[k].size); held.erase(held.begin() + long(k)); break; }
+            case 5: { uint64_t d[8]; for (auto& x : d) x = r.chance(1, 3) ? 7 : r.next(); size_t sz = size_t(1) << r.below(7); size_t off = 0; err = env.pool->add(d, sz, Out(off)); if (err == Error::kOk) sum += off * 31 + sz; break; }
+            default: { err = env.str.append_format("%llu,", (unsigned long long)(r.next() & 0xffff)); break; }
+          }
+          if (err != Error::kOk) { if (err == Error::kOutOfMemory || faults_fired_here()) { out.first_error = err; return out; } }
+        }
+        for (uint64_t v : env.vec64) sum = sum * 1099511628211ull + v;
+        for (uint32_t v : env.vec32) sum = sum * 1099511628211ull + v;
+        std::vector<uint8_t> img(env.pool->size() + 1, 0xEE);
+        env.pool->fill(img.data());
+        sum = sim::hash_bytes(img.data(), env.pool->size(), sum);
+        sum = sim::hash_bytes(env.str.data(), env.str.size(), sum);
+        char b[96]; snprintf(b, sizeof b, "round %u: vec64=%zu vec32=%zu pool=%zu str=%zu sum=%016llx\n", round, env.vec64.size(), env.vec32.size(), env.pool->size(), env.str.size(), (unsigned long long)sum);
+        out.output += b;
       }
       out.completed = true;
       return out;
@@ -462,7 +528,7 @@ void execute_multi(const Plan& plan) {
 }
 
 void fill_common(Plan& p, Rng& cfg, bool thorough) {
-  static const int64_t blocks[] = {0, 0, 1024, 2048, 4096, 16384};
+  static const int64_t blocks[] = {0, 0, 1024, 1024, 2048, 4096};
   static const int64_t bufs[] = {0, 0, 32, 64, 256};
   p.set("arena_block", blocks[cfg.below(6)]);
   p.set("code_buffer", bufs[cfg.below(5)]);
@@ -481,6 +547,7 @@ void fill_common(Plan& p, Rng& cfg, bool thorough) {
   p.set("validate", int64_t(cfg.below(2)));
   p.set("static", cfg.chance(1, 4) ? 1 : 0);
   p.set("jit_options", cfg.chance(1, 3) ? 0 : int64_t(cfg.below(32)));
+  p.set("prehistory", cfg.chance(1, 2) ? 0 : int64_t(1 + cfg.below(2)));
 }
 
 Plan generate_sweep(uint64_t seed, bool thorough) {
@@ -506,7 +573,7 @@ Plan generate_multi(uint64_t seed, bool thorough) {
 }
 
 void shrink(const Plan& p, std::vector<Plan>& out) {
-  static const char* const zero_keys[] = {"junk", "shift", "arena_block", "realloc_move", "code_buffer", "logger", "validate", "static", "policy", "window", "destroy_order"};
+  static const char* const zero_keys[] = {"junk", "shift", "arena_block", "realloc_move", "code_buffer", "logger", "validate", "static", "policy", "window", "destroy_order", "prehistory", "jit_options"};
   for (const char* k : zero_keys) if (p.get(k)) { Plan q = p; q.set(k, 0); out.push_back(q); }
   if (p.get("steps") > 5) { Plan q = p; q.set("steps", p.get("steps") / 2); out.push_back(q); }
   if (p.get("nfuncs") > 1) { Plan q = p; q.set("nfuncs", p.get("nfuncs") - 1); out.push_back(q); }
@@ -525,7 +592,7 @@ const char* const kAssumptions[] = {
 const char* const kReal[] = {"asmjit CodeHolder, Assembler/Builder/Compiler for x86-32, x86-64, AArch64, RA passes, flatten/relocate/copy, JitRuntime + JitAllocator + VirtMem, generated x86-64 code executed on the host (jit-install workload)", nullptr};
 const char* const kStub[] = {"H1 arena fault point, SimHeap (malloc/realloc failure, junk fill, realloc policy), SimVM (mmap/memfd/ftruncate/munmap failure, placement), H3/H4 knobs", nullptr};
 const sim::PropInfo kInfo = {"C15", "fault_enumeration",
-  "A case is one (workload instance, failing request) pair. Workload instances are seeded: kind (assembler with labels/sections/relocations/data/const pools + flatten + relocate + copy; builder + finalize; compiler with 1..3 functions incl. spills, calls, jump tables, const pools; compiler + JitRuntime::add + execute on the host; attach/detach/reinit choreography with three emitters) x target (x86-32, x86-64, AArch64) x logger/validation x static/dynamic arena x arena block size x code buffer capacity x heap layout. "
+  "A case is one (workload instance, failing request) pair. Workload instances are seeded: kind (assembler with labels/sections/relocations/data/const pools + flatten + relocate + copy; builder + finalize; compiler with 1..3 functions incl. spills, calls, jump tables, const pools; compiler + JitRuntime::add + execute on the host; attach/detach/reinit choreography with three emitters; container script: rounds of growing size on one arena - raw one-shot / reusable requests, two ArenaVectors, a ConstPool, a heap String - with soft/hard resets in between), optionally on objects with a past (another program assembled before, then reset(kSoft)+init or reinit(), so that the arena holds retained blocks) x target (x86-32, x86-64, AArch64) x logger/validation x static/dynamic arena x arena block size x code buffer capacity x heap layout. "
   "Scenario 'fault-sweep': a clean run counts the arena, malloc, realloc, mmap, memfd, ftruncate and munmap requests of the instance, then request k of each kind fails - for EVERY k in the thorough tier (the sweep is exhaustive per instance), for a seeded sample of 12 k per kind in the quick tier - each followed by a drawn aftermath (destroy in a drawn order / reset+init+redo / reinit+redo). Scenario 'multi-fault': fail-everything-after-k, each request fails with probability 1/d, or three specific requests. "
   "evaluations counts sub-runs (faulted executions); distinct_nontrivial counts distinct (instance, kind, k) sub-runs plus distinct multi-fault runs.",
   kAssumptions, kReal, kStub};
